@@ -3,9 +3,29 @@ import Ptx.Sem.Logic
 namespace Ptx.Gen.Known
 
 def badRules : String → List (RuleKey)
+  | "B3E" => [⟨(.op2 .bicond), false, (some false)⟩, ⟨(.op2 .bicond), true, (some true)⟩]
+  | "FDE" => [⟨(.op2 .bicond), false, (some true)⟩, ⟨(.op2 .bicond), true, (some false)⟩, ⟨(.op2 .mbicond), false, (some true)⟩, ⟨(.op2 .mbicond), true, (some false)⟩]
+  | "KB3E" => [⟨(.op2 .bicond), false, (some false)⟩, ⟨(.op2 .bicond), true, (some true)⟩]
+  | "KFDE" => [⟨(.op2 .bicond), false, (some true)⟩, ⟨(.op2 .bicond), true, (some false)⟩, ⟨(.op2 .mbicond), false, (some true)⟩, ⟨(.op2 .mbicond), true, (some false)⟩]
+  | "S4B3E" => [⟨(.op2 .bicond), false, (some false)⟩, ⟨(.op2 .bicond), true, (some true)⟩]
+  | "S4FDE" => [⟨(.op2 .bicond), false, (some true)⟩, ⟨(.op2 .bicond), true, (some false)⟩, ⟨(.op2 .mbicond), false, (some true)⟩, ⟨(.op2 .mbicond), true, (some false)⟩]
+  | "S5B3E" => [⟨(.op2 .bicond), false, (some false)⟩, ⟨(.op2 .bicond), true, (some true)⟩]
+  | "S5FDE" => [⟨(.op2 .bicond), false, (some true)⟩, ⟨(.op2 .bicond), true, (some false)⟩, ⟨(.op2 .mbicond), false, (some true)⟩, ⟨(.op2 .mbicond), true, (some false)⟩]
+  | "TB3E" => [⟨(.op2 .bicond), false, (some false)⟩, ⟨(.op2 .bicond), true, (some true)⟩]
+  | "TFDE" => [⟨(.op2 .bicond), false, (some true)⟩, ⟨(.op2 .bicond), true, (some false)⟩, ⟨(.op2 .mbicond), false, (some true)⟩, ⟨(.op2 .mbicond), true, (some false)⟩]
   | _ => []
 
 def unsoundRules : String → List (RuleKey)
+  | "B3E" => [⟨(.op2 .bicond), false, (some false)⟩, ⟨(.op2 .bicond), true, (some true)⟩]
+  | "FDE" => [⟨(.op2 .bicond), false, (some true)⟩, ⟨(.op2 .bicond), true, (some false)⟩, ⟨(.op2 .mbicond), false, (some true)⟩, ⟨(.op2 .mbicond), true, (some false)⟩]
+  | "KB3E" => [⟨(.op2 .bicond), false, (some false)⟩, ⟨(.op2 .bicond), true, (some true)⟩]
+  | "KFDE" => [⟨(.op2 .bicond), false, (some true)⟩, ⟨(.op2 .bicond), true, (some false)⟩, ⟨(.op2 .mbicond), false, (some true)⟩, ⟨(.op2 .mbicond), true, (some false)⟩]
+  | "S4B3E" => [⟨(.op2 .bicond), false, (some false)⟩, ⟨(.op2 .bicond), true, (some true)⟩]
+  | "S4FDE" => [⟨(.op2 .bicond), false, (some true)⟩, ⟨(.op2 .bicond), true, (some false)⟩, ⟨(.op2 .mbicond), false, (some true)⟩, ⟨(.op2 .mbicond), true, (some false)⟩]
+  | "S5B3E" => [⟨(.op2 .bicond), false, (some false)⟩, ⟨(.op2 .bicond), true, (some true)⟩]
+  | "S5FDE" => [⟨(.op2 .bicond), false, (some true)⟩, ⟨(.op2 .bicond), true, (some false)⟩, ⟨(.op2 .mbicond), false, (some true)⟩, ⟨(.op2 .mbicond), true, (some false)⟩]
+  | "TB3E" => [⟨(.op2 .bicond), false, (some false)⟩, ⟨(.op2 .bicond), true, (some true)⟩]
+  | "TFDE" => [⟨(.op2 .bicond), false, (some true)⟩, ⟨(.op2 .bicond), true, (some false)⟩, ⟨(.op2 .mbicond), false, (some true)⟩, ⟨(.op2 .mbicond), true, (some false)⟩]
   | _ => []
 
 def badClosure : String → List (List Lit)
@@ -18,6 +38,11 @@ def missingRules : String → List (RuleKey)
   | _ => []
 
 def tableDiff : String → List (String × List V)
+  | "FDE" => [("Biconditional", [.B, .N]), ("Biconditional", [.N, .B]), ("Conditional", [.B, .N]), ("Conditional", [.N, .B]), ("Conjunction", [.B, .N]), ("Conjunction", [.N, .B]), ("Disjunction", [.B, .N]), ("Disjunction", [.N, .B]), ("Existential", [.F, .N, .B]), ("Existential", [.N, .B]), ("MaterialBiconditional", [.B, .N]), ("MaterialBiconditional", [.N, .B]), ("MaterialConditional", [.B, .N]), ("MaterialConditional", [.N, .B]), ("Universal", [.N, .B, .T]), ("Universal", [.N, .B])]
+  | "KFDE" => [("Biconditional", [.B, .N]), ("Biconditional", [.N, .B]), ("Conditional", [.B, .N]), ("Conditional", [.N, .B]), ("Conjunction", [.B, .N]), ("Conjunction", [.N, .B]), ("Disjunction", [.B, .N]), ("Disjunction", [.N, .B]), ("Existential", [.F, .N, .B]), ("Existential", [.N, .B]), ("MaterialBiconditional", [.B, .N]), ("MaterialBiconditional", [.N, .B]), ("MaterialConditional", [.B, .N]), ("MaterialConditional", [.N, .B]), ("Necessity", [.N, .B, .T]), ("Necessity", [.N, .B]), ("Possibility", [.F, .N, .B]), ("Possibility", [.N, .B]), ("Universal", [.N, .B, .T]), ("Universal", [.N, .B])]
+  | "S4FDE" => [("Biconditional", [.B, .N]), ("Biconditional", [.N, .B]), ("Conditional", [.B, .N]), ("Conditional", [.N, .B]), ("Conjunction", [.B, .N]), ("Conjunction", [.N, .B]), ("Disjunction", [.B, .N]), ("Disjunction", [.N, .B]), ("Existential", [.F, .N, .B]), ("Existential", [.N, .B]), ("MaterialBiconditional", [.B, .N]), ("MaterialBiconditional", [.N, .B]), ("MaterialConditional", [.B, .N]), ("MaterialConditional", [.N, .B]), ("Necessity", [.N, .B, .T]), ("Necessity", [.N, .B]), ("Possibility", [.F, .N, .B]), ("Possibility", [.N, .B]), ("Universal", [.N, .B, .T]), ("Universal", [.N, .B])]
+  | "S5FDE" => [("Biconditional", [.B, .N]), ("Biconditional", [.N, .B]), ("Conditional", [.B, .N]), ("Conditional", [.N, .B]), ("Conjunction", [.B, .N]), ("Conjunction", [.N, .B]), ("Disjunction", [.B, .N]), ("Disjunction", [.N, .B]), ("Existential", [.F, .N, .B]), ("Existential", [.N, .B]), ("MaterialBiconditional", [.B, .N]), ("MaterialBiconditional", [.N, .B]), ("MaterialConditional", [.B, .N]), ("MaterialConditional", [.N, .B]), ("Necessity", [.N, .B, .T]), ("Necessity", [.N, .B]), ("Possibility", [.F, .N, .B]), ("Possibility", [.N, .B]), ("Universal", [.N, .B, .T]), ("Universal", [.N, .B])]
+  | "TFDE" => [("Biconditional", [.B, .N]), ("Biconditional", [.N, .B]), ("Conditional", [.B, .N]), ("Conditional", [.N, .B]), ("Conjunction", [.B, .N]), ("Conjunction", [.N, .B]), ("Disjunction", [.B, .N]), ("Disjunction", [.N, .B]), ("Existential", [.F, .N, .B]), ("Existential", [.N, .B]), ("MaterialBiconditional", [.B, .N]), ("MaterialBiconditional", [.N, .B]), ("MaterialConditional", [.B, .N]), ("MaterialConditional", [.N, .B]), ("Necessity", [.N, .B, .T]), ("Necessity", [.N, .B]), ("Possibility", [.F, .N, .B]), ("Possibility", [.N, .B]), ("Universal", [.N, .B, .T]), ("Universal", [.N, .B])]
   | _ => []
 
 end Ptx.Gen.Known
